@@ -74,8 +74,32 @@ def check_case(c, fn, args, ev, label_filter=None):
     """-> dict(status='ok'|'skip'|'fail', failed=[labels], exc=..., skipped=[labels])"""
     params = list(args)
     pre_ids = clause_eval.reachable_ids(list(args.values()))
-    old = copy.deepcopy(args)
-    ns0 = ev.namespace(args, old, None, pre_ids)
+    memo = {}
+    old = copy.deepcopy(args, memo)
+    back = {}
+    for oid, cp in memo.items():
+        if isinstance(oid, int) and cp is not None:
+            back[id(cp)] = None
+    # deep-copy memo maps id(original) -> copy; same(old(x), y) must compare originals
+    import ctypes
+    orig_by_id = {}
+    stack = list(args.values())
+    seen = set()
+    while stack:
+        o = stack.pop()
+        if o is None or isinstance(o, (int, float, str, bool)) or id(o) in seen:
+            continue
+        seen.add(id(o))
+        orig_by_id[id(o)] = o
+        if isinstance(o, (list, tuple)):
+            stack.extend(o)
+        elif isinstance(o, dict):
+            stack.extend(o.values())
+        elif hasattr(o, '__dict__') and not isinstance(o, np.ndarray):
+            stack.extend(vars(o).values())
+    back = {id(cp): orig_by_id[oid] for oid, cp in memo.items() if oid in orig_by_id}
+    snap = clause_eval.snapshot(list(args.values()))
+    ns0 = ev.namespace(args, old, None, pre_ids, snap=snap, back=back)
     for label, clause in c.labelled(c.requires, 'pre'):
         try:
             if not ev.holds(clause, ns0, params):
@@ -83,7 +107,10 @@ def check_case(c, fn, args, ev, label_filter=None):
         except clause_eval.NotNative:
             pass
     expected_exc = []
+    may_raise = set(e for e, cnd in c.raises.items() if cnd is None)
     for exc, cond in c.raises.items():
+        if cond is None:
+            continue
         try:
             if ev.holds(cond, ns0, params):
                 expected_exc.append(exc)
@@ -95,14 +122,24 @@ def check_case(c, fn, args, ev, label_filter=None):
     except Exception as e:
         name = type(e).__name__
         if name in c.raises:
-            if name in expected_exc:
+            if name in expected_exc or name in may_raise:
+                bad = []
+                nsx = ev.namespace(args, old, None, pre_ids, snap=snap, back=back)
+                for label, clause in c.labelled(c.ghost.get('xensures', {}).get(name, []), 'xens'):
+                    try:
+                        if not ev.holds(clause, nsx, params):
+                            bad.append('xpost:%s:%s' % (name, label))
+                    except clause_eval.NotNative:
+                        pass
+                if bad:
+                    return dict(status='fail', failed=bad, exc=repr(e)[:300])
                 return dict(status='ok', raised=name)
             return dict(status='fail', failed=['xpost:%s:only-when' % name], exc=repr(e)[:300])
         return dict(status='fail', failed=['noexc:%s' % name], exc=repr(e)[:300],
                     tb=traceback.format_exc()[-800:])
     if expected_exc:
         return dict(status='fail', failed=['xpost:returns-only-if-not:%s' % expected_exc[0]])
-    ns = ev.namespace(args, old, result, pre_ids)
+    ns = ev.namespace(args, old, result, pre_ids, snap=snap, back=back)
     for label, clause in c.labelled(list(c.ensures) + list(c.ghost.get('native_ensures', [])), 'post'):
         if label_filter and label_filter not in label:
             continue
@@ -118,7 +155,8 @@ def check_case(c, fn, args, ev, label_filter=None):
     for a in c.assigns:
         assigned.add(a.split('.')[0].split('[')[0])
     for k in args:
-        if k not in assigned and not clause_eval._same_content(args[k], old[k]):
+        if k not in assigned and not clause_eval._same_content(args[k], old[k]) and \
+                not isinstance(args[k], (int, float, str, bool)) and not hasattr(args[k], '__dict__'):
             failed.append('frame:%s-modified' % k)
     return dict(status='fail' if failed else 'ok', failed=failed, skipped=skipped, result=describe(result))
 
